@@ -64,6 +64,48 @@ def find_fn(sym, key):
     return hits[0]
 
 
+def contract_as_harness(plan, u, j, f, ud, pdir):
+    """the same requires/ensures clauses as a plain harness: fresh objects are malloc'ed, the other requires assumed,
+    the function called, every ensures asserted. No frame (assigns) check, no __CPROVER_old."""
+    clauses = None
+    for s in u.specs:
+        sp = os.path.join(ud, s) if s in plan.generated else os.path.join(pdir, s)
+        d = vfreplay.parse_spec(sp)
+        for k in d:
+            if k in (f['demangled'], f['name'], f['cname']):
+                clauses = d[k]
+    if clauses is None:
+        raise Infra('no contract text for %s' % j.target)
+    lines = ['void %s(void)' % j.entry, '{']
+    for p in f['params']:
+        lines.append('  %s %s;' % (p['type'], p['name']))
+    fresh_re = re.compile(r'__CPROVER_is_fresh\((\w+),\s*([^()]*(?:\([^()]*\)[^()]*)*)\)')
+    ens = []
+    for c in clauses:
+        if c.startswith('__CPROVER_requires('):
+            b = vfreplay.clause_body(c, '__CPROVER_requires')
+            for mm in fresh_re.finditer(b):
+                lines.append('  %s = malloc(%s); __CPROVER_assume(%s != 0);' % (mm.group(1), mm.group(2), mm.group(1)))
+            b = fresh_re.sub('1', b)
+            lines.append('  __CPROVER_assume(%s);' % b)
+        elif c.startswith('__CPROVER_ensures('):
+            b = vfreplay.clause_body(c, '__CPROVER_ensures')
+            if '__CPROVER_old' in b:
+                raise Infra('contract of %s uses __CPROVER_old: not supported without --dfcc' % j.target)
+            ens.append(b)
+    args = ', '.join(p['name'] for p in f['params'])
+    if f['ret'] == 'void':
+        lines.append('  %s(%s);' % (f['cname'], args))
+    else:
+        lines.append('  %s vf_ret = %s(%s);' % (f['ret'], f['cname'], args))
+    for i, b in enumerate(ens):
+        b2 = b.replace('__CPROVER_return_value', 'vf_ret')
+        lines.append('  __CPROVER_assert(%s, "postcondition %d of %s");' % (b2, i + 1, f['cname']))
+    lines.append('  VF_PROBE();')
+    lines.append('}')
+    return '\n'.join(lines)
+
+
 def build_unit(plan, u, bdir, tier):
     pdir = os.path.join(VERIF, 'props', plan.pid)
     ud = os.path.join(bdir, u.name)
@@ -134,9 +176,12 @@ def build_unit(plan, u, bdir, tier):
             j.fn = f
             j.entry = 'vfh_%d_%s' % (k, re.sub(r'\W', '_', f['cname'])[:40])
             k += 1
-            decl = ''.join('  %s a%d;\n' % (p['type'], i) for i, p in enumerate(f['params']))
-            call = '%s(%s);' % (f['cname'], ', '.join('a%d' % i for i in range(len(f['params']))))
-            hs.append('void %s(void)\n{\n%s  %s\n  VF_PROBE();\n}' % (j.entry, decl, call))
+            if j.dfcc:
+                decl = ''.join('  %s a%d;\n' % (p['type'], i) for i, p in enumerate(f['params']))
+                call = '%s(%s);' % (f['cname'], ', '.join('a%d' % i for i in range(len(f['params']))))
+                hs.append('void %s(void)\n{\n%s  %s\n  VF_PROBE();\n}' % (j.entry, decl, call))
+            else:
+                hs.append(contract_as_harness(plan, u, j, f, ud, pdir))
         else:
             j.entry = j.target
             j.fn = None
@@ -210,11 +255,11 @@ def run_job(plan, j, tier):
     if rc != 0:
         R.reason = 'goto-cc link failed: ' + (err + out)[-1500:]
         return R
-    need_dfcc = j.kind == 'contract' or j.replace_c or j.loops
+    need_dfcc = (j.kind == 'contract' and j.dfcc) or j.replace_c or j.loops
     if need_dfcc:
         gb2 = os.path.join(jd, 'b.gb')
         cmd = ['goto-instrument', '--dfcc', j.entry]
-        if j.kind == 'contract':
+        if j.kind == 'contract' and j.dfcc:
             cmd += ['--enforce-contract', j.fn['cname']]
         for r in j.replace_c:
             cmd += ['--replace-call-with-contract', r]
@@ -334,7 +379,7 @@ def run_job(plan, j, tier):
             continue
         R.oblig.append(ob)
         if st == 'FAILURE':
-            if any(m in desc for m in MODEL_LIMIT) or prop.startswith('no-body.') or '.no-body.' in prop or prop.startswith(('vf_memmove.unwind', 'vf_memset.unwind', 'vf_wmem', 'vf_wcslen.unwind')):
+            if ('.unwind.' in prop and '/include/c++/' in ob['file']) or any(m in desc for m in MODEL_LIMIT) or prop.startswith('no-body.') or '.no-body.' in prop or prop.startswith(('vf_memmove.unwind', 'vf_memset.unwind', 'vf_wmem', 'vf_wcslen.unwind')):
                 infra.append(ob)
             else:
                 fails.append(ob)
@@ -457,7 +502,7 @@ def main():
         jobs = [j for u in units for j in u.jobs]
         # longest first
         jobs.sort(key=lambda j: -j.timeout)
-        with ThreadPoolExecutor(max_workers=NCPU) as ex:
+        with ThreadPoolExecutor(max_workers=min(NCPU, plan.workers or NCPU)) as ex:
             def rj(j):
                 try:
                     r = run_job(plan, j, tier)
